@@ -688,6 +688,7 @@ def run_s11_s12(chk, repo):
     run_s16(chk, repo)
     run_s17(chk, repo)
     run_s18(chk, repo)
+    run_s19(chk, repo)
 
 
 def run_s13(chk, repo):
@@ -889,3 +890,42 @@ def run_s18(chk, repo):
                                   'deletes those records of the second problem')
     if n < 2:
         raise AnalysisError(f'S18: only {n} record-selecting methods found in NMTranControlStream')
+
+
+def run_s19(chk, repo):
+    """S19: a NEWLINE token of a record may end a `; comment`; the option-editing methods of OptionRecord (remove_option,
+    remove_nth_option, ..) may drop the blanks in front of the option they remove but never a NEWLINE: every removal (pop /
+    del / skip) in those methods that is conditioned on a token rule is conditioned on 'WS' only."""
+    S19 = chk.rule('S19', 'OptionRecord editors: layout tokens removed together with an option are WS only, never NEWLINE '
+                          '(it may terminate a comment)', floor=1)
+    m = repo.module('pharmpy.model.external.nonmem.records.option_record')
+    c = m.classes.get('OptionRecord')
+    if c is None:
+        raise AnalysisError('S19: OptionRecord not found')
+    n = 0
+    for mn, f in c.methods.items():
+        if not mn.startswith(('remove', 'replace', 'set_')):
+            continue
+        for I in [x for x in ast.walk(f.node) if isinstance(x, ast.If)]:
+            words = {k.value for k in ast.walk(I.test) if isinstance(k, ast.Constant) and isinstance(k.value, str)}
+            if not (words & {'WS', 'NEWLINE'}) or not any(isinstance(a, ast.Attribute) and a.attr == 'rule' for a in ast.walk(I.test)):
+                continue
+            removes = [x for s in I.body for x in ast.walk(s)
+                       if (isinstance(x, ast.Call) and isinstance(x.func, ast.Attribute) and x.func.attr in ('pop', 'remove'))
+                       or isinstance(x, (ast.Delete, ast.Continue))]
+            # statements of nested ifs are judged with the nested test
+            own = [x for x in removes if not any(isinstance(s2, ast.If) and any(x is y for y in ast.walk(s2))
+                                                 for s in I.body for s2 in ast.walk(s) if s2 is not I)]
+            if not own:
+                continue
+            n += 1
+            ok = 'NEWLINE' not in words
+            chk.instance(S19, f'{f.qualname}: if {unparse(I.test)[:50]}: removes a token: only WS: {ok}')
+            if not ok:
+                chk.violation(S19, m.rel, f.qualname, f'if {unparse(I.test)[:60]}: {unparse(own[0])[:30]}',
+                              'a NEWLINE in front of the removed option is dropped: when the previous line ends with a '
+                              '`; comment` the rest of the record becomes part of the comment', line=I.lineno,
+                              witness='$TABLE ID TIME DV ; comment\\n       CIPREDI MDV + remove_option(CIPREDI): MDV ends up '
+                                      'inside the comment')
+    if n == 0:
+        raise AnalysisError('S19: no WS removal found in the option editors of OptionRecord')
